@@ -2,6 +2,7 @@ package props
 
 import (
 	"fmt"
+	"math/big"
 	"strings"
 	"testing"
 
@@ -26,7 +27,7 @@ func c07Property(t *rapid.T) {
 	g := newHistGen(t, x)
 	g.plainAmountsForAdmins = true
 	// victims of every failure cause, some of which fail after the contract already wrote state or posted events
-	g.weights = append(g.weights, "malformed", "poor", "poor", "badsig", "ibtp-badproof", "xvm", "late-failure", "late-failure", "late-failure", "late-failure", "script", "script", "script", "script", "script")
+	g.weights = append(g.weights, "malformed", "poor", "poor", "badsig", "ibtp-badproof", "xvm", "late-failure", "late-failure", "late-failure", "late-failure", "script", "script", "script", "script", "script", "eth", "eth", "eth")
 	scriptHeavy := rapid.IntRange(0, 2).Draw(t, "scriptHeavy") == 0
 	if scriptHeavy {
 		// blocks of mostly scripted transactions over four keys: writes, deletes and re-writes of one key by
@@ -40,6 +41,7 @@ func c07Property(t *rapid.T) {
 	pools := defaultPools(x)
 	nBlocks := rapid.IntRange(1, 5).Draw(t, "blocks")
 	lateFailures, midBlockFailures := 0, 0
+	ethFailed := 0
 	admins := map[string]bool{}
 	for _, a := range x.N.Admins {
 		admins[sim.AccountKey(a.Addr)] = true
@@ -116,10 +118,50 @@ func c07Property(t *rapid.T) {
 		}
 
 		h := x.N.Height()
+		dumpBeforeX := dumpBeforeView
+		if viewed {
+			dumpBeforeX = sim.DumpState(x.N.StateDB)
+		}
 		if _, err := x.N.ExecBlock(b.event(h + 1)); err != nil {
 			f.fail("X: block %d not executed: %v", h+1, err)
 		}
 		rs := checkExecuted(x.N, h, b, f)
+		// Ethereum-format transactions: a failed one costs its sender exactly the gas it is charged for (none when it is
+		// rejected before execution) - the value it wanted to move and the gas it only reserved stay with the sender.
+		// Checked for senders with a single transaction in the block that receive nothing in it.
+		{
+			perSender := map[string]int{}
+			receives := map[string]bool{}
+			for _, s := range b.txs {
+				perSender[s.tx.GetFrom().String()]++
+				if to := s.tx.GetTo(); to != nil {
+					receives[to.String()] = true
+				}
+			}
+			dAfter := sim.DumpState(x.N.StateDB)
+			for i, s := range b.txs {
+				if s.kind != "eth" || rs[i].IsSuccess() || perSender[s.tx.GetFrom().String()] != 1 || receives[s.tx.GetFrom().String()] {
+					continue
+				}
+				et, ok := s.tx.(interface{ GetGasPrice() *big.Int })
+				if !ok {
+					continue
+				}
+				k := sim.AccountKey(s.tx.GetFrom())
+				before, after := big.NewInt(0), big.NewInt(0)
+				if a := accountOfKey(dumpBeforeX, k); a != nil {
+					before = a.Balance
+				}
+				if a := accountOfKey(dAfter, k); a != nil {
+					after = a.Balance
+				}
+				fee := new(big.Int).Mul(new(big.Int).SetUint64(rs[i].GasUsed), et.GetGasPrice())
+				if lost := new(big.Int).Sub(before, after); lost.Cmp(fee) != 0 {
+					f.fail("failed transaction %d of block %d (%s) cost its sender %s, the gas it is charged for is %d x %s = %s", i, h+1, s.desc, lost, rs[i].GasUsed, et.GetGasPrice(), fee)
+				}
+				ethFailed++
+			}
+		}
 		g.observe(b, rs)
 		metaX, _ := x.N.Ledger.GetInterchainMeta(h + 1)
 
@@ -142,6 +184,13 @@ func c07Property(t *rapid.T) {
 				lateFailures++
 			}
 			k := sim.KeyByAddr(s.tx.GetFrom().String())
+			if k == nil && s.kind == "eth" {
+				// no BitXHub-format replacement exists for an Ethereum-format sender: the same transaction runs on Y
+				// (its effect is checked above), only the other failed transactions are replaced
+				by.txs = append(by.txs, s)
+				exempt[sim.AccountKey(s.tx.GetFrom())] = true
+				continue
+			}
 			if k == nil {
 				f.fail("harness: no key for sender %s", s.tx.GetFrom().String())
 			}
@@ -168,6 +217,9 @@ func c07Property(t *rapid.T) {
 					f.fail("harness: the replacement transaction %d succeeded", j)
 				}
 				continue
+			}
+			if !rs[j].IsSuccess() {
+				continue // a failed Ethereum-format transaction that runs unchanged on Y
 			}
 			if !rsY[j].IsSuccess() {
 				f.fail("transaction %q succeeded in the block with the failed transactions and fails without them: %s", s.desc, rsY[j].Ret)
@@ -219,6 +271,9 @@ func c07Property(t *rapid.T) {
 	}
 	if scriptHeavy {
 		classes = append(classes, "script-heavy-blocks")
+	}
+	if ethFailed > 0 {
+		classes = append(classes, "failed-eth-format-tx-cost-checked")
 	}
 	nt := ""
 	if lateFailures > 0 && midBlockFailures > 0 {
